@@ -24,7 +24,7 @@ from .lang import generic_fill
 POINTWISE = ("neg", "exp", "log", "abs", "sigmoid", "sqrt")
 ARITH = ("sub", "truediv", "pow", "matmul", "floordiv", "mod", "add", "mul", "max", "min")
 NONCOMMUTATIVE = ("sub", "truediv", "pow", "matmul", "floordiv", "mod", "getitem")
-INT_ARITH = ("sub", "truediv", "add", "mul")  # arithmetic in which one operand may be a bounded-integer input
+INT_ARITH = ("add", "mul")  # arithmetic in which one operand may be a bounded-integer input (funsor types no other)
 CON_OPS = ("add", "mul")
 
 # every input name has one fixed domain (an expression cannot use one name at two domains)
@@ -550,8 +550,8 @@ def alphabet(name):
             "pointwise": ("neg",),
             "sum": (None,),
             "reshape": (),
-            "slices": ((0,),),
-            "binary": ("sub", "truediv", "add"),
+            "slices": (),
+            "binary": ("sub", "truediv"),
             "getitem": (),
             "con": ("add",),
             "tuple": True,
@@ -630,23 +630,23 @@ def _dedup(seq, seen):
 
 
 def level_up(new, others, al, seen, nary=True):
-    """Every constructor applied to operand tuples with at least one operand from ``new``, the rest from
-    ``others`` (which may contain ``new``).  Unary first, then binary, then contraction, then tuples."""
+    """Every constructor applied to operand tuples with at least one operand from ``new`` and the rest from
+    ``others``: unary(x); binary(x, y), binary(y, x) for x in new, y in others; binary(x, x) (the shared operand);
+    the same for binary contractions.  Pass ``others`` containing ``new`` for the complete level."""
     out = []
-    newset = set(new)
     for x in new:
         out += _dedup(unary_over(x, al), seen)
-    pool = list(others) + [x for x in new if x not in set(others)]
-    for x in pool:
-        for y in pool:
-            if x in newset or y in newset:
-                out += _dedup(binary_over(x, y, al), seen)
+    for x in new:
+        for y in others:
+            out += _dedup(binary_over(x, y, al), seen)
+            out += _dedup(binary_over(y, x, al), seen)
+        out += _dedup(binary_over(x, x, al), seen)
     if nary:
         for op in al["con"]:
-            for x in pool:
-                for y in pool:
-                    if x in newset or y in newset:
-                        out += _dedup([("con", op, (x, y))], seen)
+            for x in new:
+                for y in others:
+                    out += _dedup([("con", op, (x, y)), ("con", op, (y, x))], seen)
+                out += _dedup([("con", op, (x, x))], seen)
     return out
 
 
